@@ -76,14 +76,14 @@ class Result:
         self.known_hits += e1.known_hits
         part = {"engine": "E1 symlift + z3/cvc5", "title": title, "bounds": bounds}
         part.update({k: summary[k] for k in ("specs", "queries", "decided_unsat", "via_basis", "dedup", "empty", "violated", "undecided",
-                                            "solver_s", "twins", "twins_sat", "cross_checked", "cross_agree", "nodes", "vars_max", "wins")})
+                                            "solver_s", "twins", "twins_sat", "cross_checked", "cross_agree", "nodes", "vars_max", "wins", "taint_queries", "taint_unsat")})
         part["outside_bound"] = summary["outside"]
         self.parts.append(part)
         self.outside += summary["outside"]
         # obligations = solver queries that were actually needed (not deduplicated / empty)
-        ob = summary["decided_unsat"] + summary["via_basis"] + summary["violated"] + summary["undecided"]
+        ob = summary["decided_unsat"] + summary["via_basis"] + summary["violated"] + summary["undecided"] + summary["taint_queries"]
         self.obligations += ob
-        self.discharged += summary["decided_unsat"] + summary["via_basis"]
+        self.discharged += summary["decided_unsat"] + summary["via_basis"] + summary["taint_unsat"]
         self.evaluations += summary["queries"] + summary["twins"]
         self.distinct += ob
         self.solver_s += sum(summary["solver_s"].values())
@@ -258,9 +258,14 @@ def check_c07(pid, tier, seed, only):
             for k in (2, 3, 4):
                 specs.append(f"c07:n={n}:k={k}:dir={'fwd' if (n + k) % 2 else 'inv'}")
         bound = "n in 1..32 x k in 2..8 x both directions; n in 33..128 x k in {2,3,4}"
+    # directly constructed transforms with k >= 2 (the planner never builds e.g. a Bluestein with a wide inner FFT)
+    for t, k in [("BL(3,S8_0_0_0)", 3), ("BL(5,S16_0_0_0)", 2), ("BL(4,B11)", 2), ("MR(B2,B3)", 3), ("RA(S4_0_0_0)", 2), ("R4B(1,S3_3_0_3)", 2),
+                 ("GT(B3,B4)", 2), ("RN(2.3,S1_0_0_0)", 3), ("MRS(B4,B4)", 2), ("R3B(1,S2_2_0_2)", 3), ("GTS(B3,B5)", 2)]:
+        for d in ("fwd", "inv"):
+            specs.append(f"c12:tree={t}:dir={d}:k={k}")
     res, _ = _simple_e1(pid, tier, seed, only, specs,
                         "a k*n buffer is processed as k independent transforms: out[c*n+i] == DFT_i(x[c*n..(c+1)*n]) for all x (the right-hand side mentions only chunk c's symbols, so validity is independence from every other chunk); k = 1 is C01's query",
-                        {"shapes": bound, "entry_points": 4, "planner": "FftPlanner::<Sym>"})
+                        {"shapes": bound, "entry_points": 4, "planner": "FftPlanner::<Sym>", "taint_queries": "per query: can an output be syntactically influenced (NaN-taint) by a symbol outside its own chunk"}, taint=True)
     return res
 
 
@@ -269,12 +274,12 @@ def check_c08_e1(pid, tier, seed, only, res=None):
     specs = [f"c08:n={n}:dir={d}" for n in ns for d in ("fwd", "inv")]
     return _simple_e1(pid, tier, seed, only, specs,
                       "scratch of exactly the advertised length, +1, +17 and x2, initial scratch and output contents symbolic: out == DFT(x) for all x AND all scratch/output contents, three explicit-scratch entry points",
-                      {"lengths": f"{len(ns)} lengths, max {max(ns)}", "directions": 2, "scratch_lengths": "advertised + {0, 1, 17, advertised}", "planner": "FftPlanner::<Sym>"})
+                      {"lengths": f"{len(ns)} lengths, max {max(ns)}", "directions": 2, "scratch_lengths": "advertised + {0, 1, 17, advertised}", "planner": "FftPlanner::<Sym>", "taint_queries": "per query: can an output be syntactically influenced (NaN-taint) by an initial scratch/output value"}, taint=True)
 
 
 C10_POOLS = [
     ["16f", "64f", "64i", "48f", "96f", "8f", "12i", "96i"],
-    ["6f", "36f", "37f", "37i", "74f", "59i", "118i", "6i"],
+    ["6f", "36f", "37f", "37i", "59f", "59i", "118i", "128i"],
 ]
 
 
@@ -457,13 +462,197 @@ def check_c09(pid, tier, seed, only):
     return res
 
 
+# ---------------------------------------------------------------------------------------------
+# C12: trees over the public constructors
+
+BF_LEAVES = [1, 2, 3, 4, 5, 6, 7, 8, 9, 11, 12, 13, 16, 17, 19, 23, 24, 27, 29, 31, 32]
+
+
+def _leaf_variants(n, rng, small=False):
+    """leaves of length n: butterfly / Dft / planner-produced / SpecDft with assorted advertised scratch"""
+    out = []
+    if n in BF_LEAVES:
+        out.append((f"B{n}", n))
+    if n <= 5:
+        out.append((f"D{n}", n))
+    if not small and n >= 2:
+        out.append((f"P{n}", n))
+    if small:
+        specs = [(0, 0, 0), (n, 0, n), (max(0, n - 1), 0, 2 * n + 1)]
+    else:
+        specs = [(0, 0, 0), (n, 0, n), (n + 3, 2, 1), (1, 2 * n + 1, 0), (0, max(0, n - 1), 2 * n), (2 * n + 5, 3 * n, n + 7)]
+    for (a, b, c) in specs:
+        out.append((f"S{n}_{a}_{b}_{c}", n))
+    return out
+
+
+def _gcd(a, b):
+    while b:
+        a, b = b, a % b
+    return a
+
+
+def c12_trees(tier, seed):
+    import random
+    rng = random.Random(seed * 7919 + 12)
+    L = 40 if tier == "quick" else 128
+    per = 2 if tier == "quick" else 5       # leaf variants sampled per slot
+    d1 = []   # (expr, len)
+
+    def pick(vs, k):
+        vs = list(vs)
+        return vs if len(vs) <= k else rng.sample(vs, k)
+    lens = [n for n in range(1, L + 1)]
+    for a in lens:
+        for b in lens:
+            if a * b > L or a * b < 2:
+                continue
+            if a > 13 or b > 13:
+                continue
+            for (ea, _) in pick(_leaf_variants(a, rng), per):
+                for (eb, _) in pick(_leaf_variants(b, rng), 1):
+                    d1.append((f"MR({ea},{eb})", a * b))
+                    if _gcd(a, b) == 1:
+                        d1.append((f"GT({ea},{eb})", a * b))
+            for (ea, _) in pick(_leaf_variants(a, rng, small=True), per):
+                for (eb, _) in pick(_leaf_variants(b, rng, small=True), 1):
+                    d1.append((f"MRS({ea},{eb})", a * b))
+                    if _gcd(a, b) == 1:
+                        d1.append((f"GTS({ea},{eb})", a * b))
+    for p in [3, 5, 7, 11, 13, 17, 19, 23, 29, 31, 37, 41, 43, 53, 61, 73, 97, 101, 113, 127]:
+        if p <= L:
+            for (e, _) in pick(_leaf_variants(p - 1, rng), per + 1):
+                d1.append((f"RA({e})", p))
+    for n in range(1, (L // 2) + 1):
+        if n > 24:
+            continue
+        for inner in sorted({2 * n - 1, 2 * n, 3 * n - 1, 3 * n + 1, 4 * n}):
+            if 1 <= inner <= L:
+                for (e, _) in pick(_leaf_variants(inner, rng), 1 if tier == "quick" else 2):
+                    d1.append((f"BL({n},{e})", n))
+    for k in (0, 1, 2, 3):
+        for base in (1, 2, 3, 5, 6, 7, 8, 12):
+            if base * 4 ** k <= L:
+                for (e, _) in pick(_leaf_variants(base, rng), per):
+                    d1.append((f"R4B({k},{e})", base * 4 ** k))
+            if base * 3 ** k <= L:
+                for (e, _) in pick(_leaf_variants(base, rng), per):
+                    d1.append((f"R3B({k},{e})", base * 3 ** k))
+    for fs in ([2], [3], [4], [5], [6], [7], [2, 3], [3, 2], [4, 4], [5, 7], [7, 6], [2, 2, 3], [3, 5, 2], [6, 4], []):
+        for base in (1, 2, 3, 5, 7):
+            ln = base
+            for f in fs:
+                ln *= f
+            if ln <= L and ln >= 1:
+                for (e, _) in pick(_leaf_variants(base, rng), 1 if tier == "quick" else 3):
+                    d1.append((f"RN({'.'.join(map(str, fs)) or '1'},{e})" if fs else None, ln))
+    d1 = [(e, n) for (e, n) in d1 if e]
+    for n in (1, 2, 4, 8, 16, 32, 64, 128):
+        if n <= L:
+            d1.append((f"R4_{n}", n))
+    for n in (1, 3, 9, 27, 81):
+        if n <= L:
+            d1.append((f"R3_{n}", n))
+    # depth 2: a depth-1 tree as a child of another constructor
+    d2 = []
+    kids = [(e, n) for (e, n) in d1 if 2 <= n <= L // 2]
+    rng.shuffle(kids)
+    for (e, n) in kids[: (60 if tier == "quick" else 600)]:
+        choices = []
+        for m in (2, 3, 4, 5, 7):
+            if n * m <= L:
+                choices.append((f"MR({e},B{m})", n * m))
+                choices.append((f"MR(B{m},{e})", n * m))
+                if _gcd(n, m) == 1:
+                    choices.append((f"GT({e},B{m})", n * m))
+        if is_prime(n + 1) and n + 1 <= L:
+            choices.append((f"RA({e})", n + 1))
+        if n >= 3:
+            choices.append((f"BL({(n + 1) // 2},{e})", (n + 1) // 2))
+        for k in (1, 2):
+            if n * 4 ** k <= L:
+                choices.append((f"R4B({k},{e})", n * 4 ** k))
+            if n * 3 ** k <= L:
+                choices.append((f"R3B({k},{e})", n * 3 ** k))
+        if n * 6 <= L:
+            choices.append((f"RN(3.2,{e})", n * 6))
+        if choices:
+            d2 += pick(choices, 1 if tier == "quick" else 2)
+    # stratified sample: every constructor family keeps its share (a plain sample would be
+    # dominated by the MR/GT pairs and drop e.g. the Bluestein inner-length classes)
+    fam = {}
+    for (e, n) in d1:
+        key = e.split("(")[0].split("_")[0]
+        if key == "BL":
+            # keep the inner-length classes apart: inner relative to 2n-1 / 3n-1
+            nn = int(e[3:e.index(",")])
+            key = f"BL{'a' if n == 0 else ''}"
+            inner_len = int(re.search(r"[BDPS](\d+)", e[e.index(","):]).group(1))
+            key = "BL-wide" if inner_len >= 3 * nn - 1 else "BL-tight"
+        fam.setdefault(key, []).append((e, n))
+    per_family = 18 if tier == "quick" else 220
+    d1 = []
+    for key in sorted(fam):
+        v = fam[key]
+        d1 += v if len(v) <= per_family else rng.sample(v, per_family)
+    specs = []
+    for j, (e, n) in enumerate(d1 + d2):
+        d = "fwd" if j % 2 == 0 else "inv"
+        k = 2 if j % 3 == 0 and n <= 24 else 1
+        specs.append((f"c12:tree={e}:dir={d}" + (f":k={k}" if k > 1 else ""), n * k))
+    return specs
+
+
+def check_c12(pid, tier, seed, only):
+    res = Result(pid, tier, seed)
+    e1, err = _e1(pid, tier, seed, twin_every=3, taint=True)
+    if e1 is None:
+        res.inconclusive.append("symlift does not build against /repo: " + err[-300:])
+        return res
+    pairs = c12_trees(tier, seed)
+    cost = {s: n * n for s, n in pairs}
+    specs = _filter([s for s, _ in pairs], only)
+    if specs:
+        s = e1.run(specs, cost=lambda sp: cost.get(sp, 1))
+        res.add_e1("transforms assembled from the public constructors (depth <= 2, leaves: butterflies, Dft, planner-produced, SpecDft = DFT-by-definition with arbitrary advertised scratch that asserts the Fft caller contract and clobbers whatever it may): construct without panicking and equal the DFT of the composite length for all inputs and all initial scratch/output contents, 4 entry points, scratch advertised+{0,3}, k in {1,2}",
+                   e1, s, {"trees": len(specs), "max_composite_length": 40 if tier == "quick" else 128, "depth": "<= 2", "sampling": "seeded sample of leaf variants per constructor (VERIF_SEED)", "per_query_cap_s": e1.cap})
+    if only is None or "h_gen" in (only or ""):
+        run_e2(res, pid, tier, seed, only, lambda m: m["group"] == "wrapper",
+               "inductive step per wrapper constructor against Contract inner transforms (symbolic advertised scratch): construction and every call within the documented preconditions neither panic nor leave the caller's buffers, inner transforms always receive what they advertise",
+               W_BOUNDS)
+    res.outside += ["SIMD transforms as inner transforms are covered only through Contract/SpecDft (their own correctness is not)", "depth > 2, composite length above the bound"]
+    return res
+
+
+def check_c07_full(pid, tier, seed, only):
+    res = check_c07(pid, tier, seed, only)
+    if only is None or "h_" in (only or ""):
+        run_e2(res, pid, tier, seed, only, lambda m: (m["kind"] == "well" and m["k"] >= 2) or "unroll2x" in m["unit"],
+               "chunk isolation by taint: after a k-chunk call every output element carries exactly the tag of its own chunk (no other chunk, no stale scratch/output value); the 2x-unrolled validators visit every chunk exactly once including the odd tail",
+               W_BOUNDS)
+    res.outside += ["SSE/AVX kernels' two-chunks-at-a-time paths (f32/f64 only): only the shared *_unroll2x validators they rely on are decided"]
+    return res
+
+
+def check_c08(pid, tier, seed, only):
+    res, _ = check_c08_e1(pid, tier, seed, only)
+    if only is None or "h_" in (only or ""):
+        run_e2(res, pid, tier, seed, only, lambda m: m["group"] in ("wrapper", "radix") and m["kind"] == "well",
+               "scratch-length arithmetic of every wrapper against Contract inner transforms with symbolic needs: with scratch of exactly the advertised length (+0..2) every inner call receives at least what it advertises and every split succeeds; no output element carries stale scratch/output taint; the validators trim the scratch to exactly the required length",
+               W_BOUNDS)
+    res.outside += ["SIMD planned transforms; bit-for-bit equality for f32/f64 follows from node-identical term DAGs of the generic code, not separately decided"]
+    return res
+
+
 CHECKS = {
     "C15": check_c15,
     "C03": check_c03,
     "C09": check_c09,
     "C01": check_c01,
     "C06": check_c06,
-    "C07": check_c07,
+    "C07": check_c07_full,
+    "C08": check_c08,
+    "C12": check_c12,
     "C10": check_c10,
     "C14": check_c14,
 }
